@@ -76,6 +76,9 @@ pub struct SimCfg {
     pub tick_ns: u64,
     /// expected run length in steps (PCT change points are drawn below this)
     pub est_len: u64,
+    /// how often parked pollers are re-run (after a real 200 us pause) before a state without
+    /// runnable threads is called a deadlock; 0 for purely simulated kernels
+    pub idle_retries: u32,
 }
 
 impl Default for SimCfg {
@@ -87,6 +90,7 @@ impl Default for SimCfg {
             strategy: None,
             tick_ns: 1_000,
             est_len: 300,
+            idle_retries: 0,
         }
     }
 }
@@ -130,6 +134,7 @@ pub struct Sim {
     rr_last: Tid,
     last_run: Option<Tid>,
     addr_ids: Vec<usize>,
+    idle_retries: u32,
 }
 
 static mut CUR: *mut Sim = std::ptr::null_mut();
@@ -251,6 +256,7 @@ impl Sim {
             rr_last: 0,
             last_run: None,
             addr_ids: Vec::new(),
+            idle_retries: 0,
         })
     }
 
@@ -513,6 +519,22 @@ impl Sim {
                             self.trace.ev(|| format!("clock -> {d} ns (deadline of t{i})"));
                             continue;
                         }
+                        // pollers wait on real kernel objects whose state may still be settling
+                        // (loopback TCP is delivered in softirq context): give the kernel a moment
+                        // and let them look again before calling it a deadlock
+                        let pollers = self.threads.iter().any(|t| matches!(t.st, St::Blocked { poller: true, .. }));
+                        if pollers && self.idle_retries < self.cfg.idle_retries {
+                            self.idle_retries += 1;
+                            self.count("probe.idle_repoll_of_parked_pollers");
+                            std::thread::sleep(std::time::Duration::from_micros(200));
+                            for t in &mut self.threads {
+                                if let St::Blocked { poller: true, .. } = t.st {
+                                    t.st = St::Runnable;
+                                    t.wake = Wake::Recheck;
+                                }
+                            }
+                            continue;
+                        }
                         let desc: Vec<String> = self
                             .threads
                             .iter()
@@ -611,6 +633,7 @@ pub fn sched_point(kind: P, detail: u64) {
     let Some(s) = sim() else { return };
     let Some(cur) = s.cur else { return };
     s.seq += 1;
+    s.idle_retries = 0;
     s.trace.mix((cur as u64) << 8 | kind as u64, detail);
     if !s.step_accounting() {
         s.suspend_current();
@@ -711,10 +734,14 @@ unsafe fn syscall_hook(nr: usize, a: [usize; 6], _nargs: usize) -> usize {
     }
     let s = sim().unwrap();
     s.mono_ns += s.cfg.tick_ns;
-    match s.kernel {
+    let r = match s.kernel {
         Some(k) => (*k).syscall(nr, a),
         None => crate::kern::default_syscall(nr, a),
-    }
+    };
+    // whatever a thread just did (a real call, or simulated time passing) may have made a
+    // parked poller's condition true
+    wake_pollers();
+    r
 }
 
 /// Route tiny-std's system calls and seam atomics through the simulator (process-wide, once).
